@@ -193,7 +193,7 @@ pub fn sections() -> Vec<(String, &'static str, Vec<f32>)> {
     let px1: Vec<[f32; 3]> = (0..al * al * al).map(|i| [a1[i / (al * al)], a1[(i / al) % al], a1[i % al]]).collect();
     let back = {
         let len = px1.len();
-        yuvxyb::LinearRgb::from(yuvxyb::Xyb::from(yuvxyb::LinearRgb::new(px1, len, 1).unwrap())).into_data()
+        guarded(|| yuvxyb::LinearRgb::from(yuvxyb::Xyb::from(yuvxyb::LinearRgb::new(px1, len, 1).unwrap())).into_data()).unwrap_or_default()
     };
     out.push(("xyb/roundtrip".into(), "xyb_inv", back.iter().flatten().copied().collect()));
     // decode / encode (no fastmath dependence: must be bit-identical between fastmath on and off)
@@ -217,11 +217,14 @@ pub fn sections() -> Vec<(String, &'static str, Vec<f32>)> {
         let len = epx.len();
         let rgb = yuvxyb::Rgb::new(epx.clone(), len, 1, TC::BT1886, CP::BT709).unwrap();
         let cfg = cfg444(c.n, c.full, c.m);
-        let codes: Vec<f32> = if c.wide {
-            yuvxyb::Yuv::<u16>::try_from((&rgb, cfg)).map(|y| y.data().iter().flat_map(|p| plane_samples(p)).map(|v| v as f32).collect()).unwrap_or_default()
-        } else {
-            yuvxyb::Yuv::<u8>::try_from((&rgb, cfg)).map(|y| y.data().iter().flat_map(|p| plane_samples(p)).map(|v| v as f32).collect()).unwrap_or_default()
-        };
+        let codes: Vec<f32> = guarded(|| {
+            if c.wide {
+                yuvxyb::Yuv::<u16>::try_from((&rgb, cfg)).map(|y| y.data().iter().flat_map(|p| plane_samples(p)).map(|v| v as f32).collect()).unwrap_or_default()
+            } else {
+                yuvxyb::Yuv::<u8>::try_from((&rgb, cfg)).map(|y| y.data().iter().flat_map(|p| plane_samples(p)).map(|v| v as f32).collect()).unwrap_or_default()
+            }
+        })
+        .unwrap_or_else(|_| vec![-1.0]);
         out.push((format!("encode/{}/u16={}", c.key(), c.wide), "encode", codes));
     }
     let pg: Vec<f32> = (0..=10).map(|i| -0.5 + 0.25 * i as f32).collect();
